@@ -93,3 +93,71 @@ Proof.
   rewrite <- (app_nil_r (b :: r)). rewrite !block_go_semis; try exact Hs; try discriminate.
   split; reflexivity.
 Qed.
+
+(* ------------------------------------------------------------------ statement sequences *)
+Fixpoint seq_state (l : list sitem) (need_sep : bool) (n : nat) : option (bool * nat) :=
+  match l with
+  | [] => Some (need_sep, n)
+  | SSemi :: r => seq_state r false n
+  | STerm :: r => if need_sep then None else seq_state r true (S n)
+  | SBlock :: r => if need_sep then None else seq_state r false (S n)
+  end.
+
+Lemma seq_go_app top : forall l1 l2 ns n,
+  seq_go top (l1 ++ l2) ns n
+  = match seq_state l1 ns n with Some (ns', n') => seq_go top l2 ns' n' | None => None end.
+Proof.
+  induction l1 as [|b r IH]; intros l2 ns n; [reflexivity|].
+  destruct b; cbn [app seq_go seq_state].
+  - apply IH.
+  - destruct ns; [reflexivity|apply IH].
+  - destruct ns; [reflexivity|apply IH].
+Qed.
+
+(* `;;`, i.e. also a blank line after an explicit `;`: a doubled semicolon changes nothing *)
+Lemma seq_double_semi top l1 l2 :
+  parse_sequence top (l1 ++ SSemi :: SSemi :: l2) = parse_sequence top (l1 ++ SSemi :: l2).
+Proof.
+  unfold parse_sequence. rewrite !seq_go_app.
+  destruct (seq_state l1 false 0) as [[ns n]|]; reflexivity.
+Qed.
+
+(* a semicolon before the closing `}` (or at the very end, or at the very beginning) changes nothing in a block *)
+Lemma seq_trailing_semi l : parse_sequence false (l ++ [SSemi]) = parse_sequence false l.
+Proof.
+  unfold parse_sequence. rewrite seq_go_app. rewrite <- (app_nil_r l) at 2. rewrite seq_go_app.
+  destruct (seq_state l false 0) as [[ns n]|]; [|reflexivity]. cbn [seq_go]. destruct ns; reflexivity.
+Qed.
+
+Lemma seq_leading_semi top l : parse_sequence top (SSemi :: l) = parse_sequence top l.
+Proof. reflexivity. Qed.
+
+(* a semicolon can be added anywhere in an accepted sequence without changing the statements *)
+Lemma seq_go_insert_semi top : forall l2 ns n k,
+  seq_go top l2 ns n = Some k -> seq_go top l2 false n = Some k.
+Proof.
+  induction l2 as [|b r IH]; intros ns n k H.
+  - cbn [seq_go] in *. destruct ns; [|exact H]. destruct top; [discriminate|exact H].
+  - destruct b; cbn [seq_go] in *.
+    + exact H.
+    + destruct ns; [discriminate|exact H].
+    + destruct ns; [discriminate|exact H].
+Qed.
+
+Lemma seq_insert_semi top l1 l2 k :
+  parse_sequence top (l1 ++ l2) = Some k -> parse_sequence top (l1 ++ SSemi :: l2) = Some k.
+Proof.
+  unfold parse_sequence. rewrite !seq_go_app.
+  destruct (seq_state l1 false 0) as [[ns n]|]; [|discriminate].
+  cbn [seq_go]. apply seq_go_insert_semi.
+Qed.
+
+(* after a statement that ends with its own `}` (or after another `;`, or at the start) the
+   separator is optional: newline, `;` or nothing are the same *)
+Lemma seq_semi_after_block top l1 l2 :
+  parse_sequence top (l1 ++ SBlock :: SSemi :: l2) = parse_sequence top (l1 ++ SBlock :: l2).
+Proof.
+  unfold parse_sequence. rewrite !seq_go_app.
+  destruct (seq_state l1 false 0) as [[ns n]|]; [|reflexivity].
+  cbn [seq_go]. destruct ns; reflexivity.
+Qed.
